@@ -52,6 +52,16 @@ CLAIMED['C04'] = dict(
          'Known design-level findings F5/F6 live in the lowering, outside these kernels.',
     ref='§4 C04')
 
+CLAIMED['C02'] = dict(
+    text='Decides with Z3 over the real MIR of the box / capture / closure ops (C02.K1) on an arbitrary stack, frame and box heap '
+         '(aliasing between symbolic box references decided by the solver): a captured variable is one heap cell addressed by the '
+         'box identity; op_box/op_empty_box create a fresh cell, op_fill_box/op_set_box/op_set_capture write exactly that cell, '
+         'op_get_box/op_get_capture read it, op_closure copies box identities (not values) in operand order for up to 3 captures. '
+         'Resolver capture analysis and the emission per symbol state are not yet machine checked.',
+    note='Trusted: rustc MIR printer, mirsym, abstract object identities + identity-indexed heap arrays (vmabs.py), Z3. '
+         'Captures / LyBox / Closure accessors are executed from laythe_core MIR.',
+    ref='§4 C02')
+
 NOT_APPLICABLE = {
     'C08': 'global liveness of the fiber scheduler needs the running Vm (DESIGN.md §6); no bounded symbolic encoding of the real scheduler is within reach',
 }
